@@ -10,7 +10,7 @@ EXPLANATION = ('Static rules on debounce, throttle, sample and the buffers: R-a 
                'incoming item (or a clone) ends up in at most one emission sink (delivered downstream, or parked in the pending cell that is '
                'later flushed), a take() of that cell cancelling the parked copy; R-b every buffer emission is guarded by !is_empty(); R-c '
                'complete() flushes the pending content before completing; R-d timer tasks move the pending content out with take(), never '
-               'clone it. Registration of the task handles is C02.U1. Does not decide window timing, edge selection, count arithmetic or '
+               'clone it. Registration of the task handles is C02.U1. R-e debounce protocol (provenance dataflow): every item replaces the parked one, cancels the timer of its predecessor and arms a new one with the configured delay, whose handle is kept; R-f throttle protocol: an item goes out on the leading edge only together with opening a window, the item that went out is not also kept for the trailing edge, inside a window the newest item is parked, the window timer is armed with the selector\'s duration for that item and its handle kept. Does not decide '
                'order under same-instant events.')
 ASSUMPTIONS = ['bool configuration fields that next() never writes have one value along a path (correlated branches are pruned)']
 
@@ -57,11 +57,12 @@ def pending_field(cx, im, adt_path, depth=0):
     if len(hits) != 1:
         raise Incomplete('cannot identify the pending-item cell of %s by its type (candidates %s)' % (adt_path, hits))
     return hits[0]
-CONTROLS = ['R-a|<verif_controls::DoubleEdge<O, Item> as Observer>::next', 'R-d|verif_controls::clone_task']
+CONTROLS = ['R-a|<verif_controls::DoubleEdge<O, Item> as Observer>::next', 'R-d|verif_controls::clone_task',
+            'R-e|<verif_controls::NoCancelDebounce<O, SD, Item> as Observer>::next']
 
 
 def check(cx):
-    return ra(cx) + ([] if cx.control else rb(cx) + rc(cx)) + rd(cx)
+    return ra(cx) + ([] if cx.control else rb(cx) + rc(cx)) + rd(cx) + re_(cx) + rf(cx)
 
 
 def _is_item(e):
@@ -252,4 +253,110 @@ def rd(cx):
         ok = bool(nexts) and not bad
         res.append(Finding(ID, 'R-d', fn['path'] if cx.control else 'release task of ' + fn['file'], ok, 'the pending item leaves its cell by take()' if ok else
                            'the timer task emits a copy and leaves the pending item in its cell: it is emitted again later', fn['span'], [node_desc(g, x) for x in bad]))
+    return res
+
+
+def _tracks():
+    from ..core import SCHEDULE, UNSUB_NAMES
+    t = {SCHEDULE: 'schedule'}
+    for u in UNSUB_NAMES:
+        t[u] = 'unsub'
+    return t
+
+
+def re_(cx):
+    """debounce: newest item parked, predecessor's timer cancelled, new timer armed with the configured delay and kept"""
+    from .. import prov as P
+    F = cx.facts
+    res = []
+    n = 0
+    for im in cx.observer_impls():
+        tag = roles.impl_tag(cx, im)
+        if tag != ('verif_controls::NoCancelDebounce' if cx.control else 'ops::debounce::DebounceObserver'):
+            continue
+        n += 1
+        fn = cx.method(im, 'next')
+        sums, _ = P.summaries(cx.graph(fn['key']), track=_tracks())
+        bad = None
+        durs = [f for f, t in roles.adt_fields(cx, tag) if F.tystr(t) == 'std::time::Duration']
+        for sm, key in sums:
+            sched = [e for e in sm['events'] if e[0] == 'call' and e[1] == 'schedule']
+            unsub = [e for e in sm['events'] if e[0] == 'call' and e[1] == 'unsub']
+            stored = {k[1:]: v for k, v in sm['store'].items() if k[0] == 'S'}
+            if not any(v == ('some', ('item', ())) for v in stored.values()) and all(P.decided(v) or v[0] == 'some' for v in stored.values()):
+                bad = 'debounce: a path of next() does not park the incoming item as the newest value'
+            if len(sched) != 1:
+                bad = 'debounce: every item must arm exactly one timer'
+                continue
+            d = sched[0][2][-1]
+            if P.decided(d) and not (d[0] == 'some' and d[1][0] == 'old' and d[1][1] and d[1][1][-1] in durs):
+                bad = 'debounce: the timer is not armed with the configured delay (%s)' % P.show(d)
+            cells = [k for k, v in stored.items() if v[0] == 'some' and v[1][0] == 'tracked' and v[1][1] == 'schedule']
+            if not cells:
+                bad = 'debounce: the handle of the new timer is not kept (it can be neither cancelled by the next item nor by unsubscribe)'
+                continue
+            cell = cells[0]
+            c = P.cond_of(sm, lambda t: t == ('discr', ('old', cell)))
+            want = ('old', cell + ('as Some', '0'))
+            if c != 0 and not any(e[2] and e[2][0] == want for e in unsub):
+                bad = 'debounce: the timer armed for the previous item is not cancelled: it fires inside the new item\'s window and delivers the new item early'
+        res.append(Finding(ID, 'R-e', cx.label(fn), not bad, bad or 'parks the item, cancels the previous timer, arms a new one with the delay and keeps its handle', fn['span']))
+    if not cx.control and n < 1:
+        res.append(Finding(ID, 'R-e', 'floor', False, 'DebounceObserver not found'))
+    return res
+
+
+def rf(cx):
+    """throttle: leading edge emits together with opening a window and does not keep the emitted item; inside a window the newest
+    item is parked (trailing); the window timer uses the selector's duration for the item"""
+    from .. import prov as P
+    F = cx.facts
+    res = []
+    if cx.control:
+        return res
+    n = 0
+    for im in cx.observer_impls():
+        tag = roles.impl_tag(cx, im)
+        if tag != 'ops::throttle::ThrottleObserver':
+            continue
+        n += 1
+        fn = cx.method(im, 'next')
+        sums, _ = P.summaries(cx.graph(fn['key']), track=_tracks())
+        bad = None
+        item = ('item', ())
+        for sm, key in sums:
+            sched = [e for e in sm['events'] if e[0] == 'call' and e[1] == 'schedule']
+            ne = P.emits(sm, 'next')
+            stored = {k[1:]: v for k, v in sm['store'].items() if k[0] == 'S'}
+            flags = {t[1][-1]: v for t, v in sm['conds'] if t[0] == 'old' and len(t[1]) >= 1 and v in (0, 1)}
+            lead = next((v for k, v in flags.items() if 'lead' in k), None)
+            trail = next((v for k, v in flags.items() if 'tail' in k or 'trail' in k), None)
+            if len(ne) > 1 or any(P.decided(e[2]) and e[2] != item for e in ne):
+                bad = 'throttle: more than the incoming item is emitted from next()'
+            if ne and not sched:
+                bad = 'throttle: an item goes out on the leading edge without opening a window'
+            if ne and lead == 0:
+                bad = 'throttle: an item goes out although the leading edge is disabled'
+            if len(sched) > 1:
+                bad = 'throttle: more than one window timer per item'
+            if sched:
+                d = sched[0][2][-1]
+                if P.decided(d) and not (d[0] == 'some' and d[1][0] == 'ucall'):
+                    bad = 'throttle: the window timer is not armed with the duration the selector gives for this item'
+                elif d[0] == 'some' and d[1][0] == 'ucall':
+                    argv = sm['ucalls'][d[1][1]][1]
+                    if argv[0] == 'tuple' and argv[1] and P.decided(argv[1][0]) and argv[1][0] != item:
+                        bad = 'throttle: the duration selector is not applied to the incoming item'
+                if not any(v[0] == 'some' and v[1][0] == 'tracked' for v in stored.values()):
+                    bad = 'throttle: the handle of the window timer is not kept'
+            parked = [k for k, v in stored.items() if v == ('some', item)]
+            if ne and parked:
+                bad = 'throttle: the item that went out on the leading edge is also kept for the trailing edge (it would be delivered twice)'
+            if trail == 1 and not ne and not parked and all(P.decided(v) for v in stored.values()) and not (sched and lead == 1):
+                bad = 'throttle: inside a window the newest item is not parked for the trailing edge'
+            if trail == 0 and parked:
+                bad = 'throttle: an item is parked although the trailing edge is disabled'
+        res.append(Finding(ID, 'R-f', cx.label(fn), not bad, bad or 'leading/trailing edge protocol holds on all %d path classes' % len(sums), fn['span']))
+    if n < 1:
+        res.append(Finding(ID, 'R-f', 'floor', False, 'ThrottleObserver not found'))
     return res
